@@ -112,7 +112,7 @@ def prove_connect(src_root, ex: Explorer):
     # announced, ValueError from the resolver): every one must leave the connection CLOSED and unregistered
     # 'closed-meanwhile': while the TCP connect is in flight somebody disconnects this (registered, CONNECTING) connection - what
     # Network.disconnect() does to every registered connection on stop(); then the TCP connect completes
-    outcomes = ['ok', 'OSError', 'TimeoutError', 'cancelled', 'OverflowError', 'ValueError', 'closed-meanwhile']
+    outcomes = ['ok', 'OSError', 'TimeoutError', 'cancelled', 'OverflowError', 'ValueError', 'closed-meanwhile', 'closing-meanwhile']
 
     def path(ctx: Ctx):
         it = mk(src_root, ctx)
@@ -131,6 +131,14 @@ def prove_connect(src_root, ex: Explorer):
             def body(it3):
                 if oc == 'ok':
                     return (Stub('reader'), w.data_connection().attrs['_writer'])
+                if oc == 'closing-meanwhile':
+                    # the disconnect of the other activation is under way (it reported CLOSING and is suspended in a listener / in
+                    # wait_closed) when the TCP connect completes
+                    it3.await_value(it3.call(it3.getattr(c, 'set_state'), [enum(it3, CONN, 'ConnectionState', 'CLOSING')],
+                                             {'close_reason': enum(it3, CONN, 'CloseReason', 'REQUESTED')}))
+                    other = w.data_connection()
+                    late_writer.append(other)
+                    return (Stub('reader'), other.attrs['_writer'])
                 if oc == 'closed-meanwhile':
                     it3.await_value(it3.call(it3.getattr(c, 'disconnect'), [enum(it3, CONN, 'CloseReason', 'REQUESTED')], {}))
                     other = w.data_connection()
@@ -152,6 +160,11 @@ def prove_connect(src_root, ex: Explorer):
         final = c.attrs['state'].name
         if oc == 'ok':
             ctx.prove(f'C10.connect.exit[{tag}]', raised is None and final == 'CONNECTED' and seq == ['CONNECTING', 'CONNECTED'])
+        elif oc == 'closing-meanwhile':
+            closed_late = bool(late_writer) and bool(late_writer[0].ghost['writer_closed'])
+            ctx.prove(f'C10.connect.exit[{tag}]', raised == 'ConnectionFailedError' and 'CONNECTED' not in seq and closed_late,
+                      f'a disconnect is under way (CLOSING) when the TCP connect completes: reported {seq}, raised {raised}, socket opened afterwards '
+                      f'closed: {closed_late} - the connection goes back to CONNECTED')
         elif oc == 'closed-meanwhile':
             closed_late = bool(late_writer) and bool(late_writer[0].ghost['writer_closed'])
             ctx.prove(f'C10.connect.exit[{tag}]', raised == 'ConnectionFailedError' and final == 'CLOSED' and seq == ['CONNECTING', 'CLOSING', 'CLOSED']
@@ -300,29 +313,43 @@ def prove_after_closed(src_root, ex: Explorer):
 
 
 def prove_accept(src_root, ex: Explorer):
-    outcomes = ['initialized', 'closed-by-handler']
+    # 'handler-cut-short': IF accept() bounds the initialisation handler with a timeout, the expiry (the peer stays silent) ends the handler
+    # without its own error handling having run: accept() itself must then close the connection
+    outcomes = ['initialized', 'closed-by-handler', 'handler-cut-short']
 
     def path(ctx: Ctx):
         it = mk(src_root, ctx)
         w = NetWorld(it, ctx)
-        oc = outcomes[ctx.choose(2, 'outcome')]
+        oc = outcomes[ctx.choose(3, 'outcome')]
         accepted = []
+        expired = []
 
         def on_peer_accepted(it2, a, k):
             conn = a[0]
             accepted.append(conn)
             w.registry.append(conn)
+            if oc == 'handler-cut-short' and it2.aio.timeout_depth > 0:
+                expired.append(1)
+                it2.throw('TimeoutError')
             if oc == 'closed-by-handler':
                 # undecodable / unexpected init message, unknown pierce ticket, EOF ...: the handler disconnects
                 it2.await_value(it2.call(it2.getattr(conn, 'disconnect'), [enum(it2, CONN, 'CloseReason', 'REQUESTED')], {}))
         w.network.attrs['on_peer_accepted'] = Recorder('on_peer_accepted', fn=on_peer_accepted, is_async=True)
         lc = new(it, CONN, 'ListeningConnection', hostname='0.0.0.0', port=1, network=w.network, obfuscated=False)
         writer = w.data_connection().attrs['_writer']
-        run(it, it.getattr(lc, 'accept'), Stub('reader'), writer)
+        try:
+            run(it, it.getattr(lc, 'accept'), Stub('reader'), writer)
+        except PyRaise as pr:
+            ctx.fail(f'C10.accept.no-raise[{oc}]', repr(pr.exc))
+            return
         conn = accepted[0] if accepted else None
         seq = w.seq(conn) if conn else []
         monotone(ctx, f'C10.set_state.monotone#accept[{oc}]', seq)
-        if oc == 'initialized':
+        if oc == 'handler-cut-short':
+            ctx.prove('C10.accept.cut-short-closes', (not expired) or (conn.attrs['state'].name == 'CLOSED' and not any(x is conn for x in w.registry)),
+                      f'the initialisation handler was cut short by a timeout of accept(): the connection is {conn.attrs["state"].name} and '
+                      f'{"still registered" if any(x is conn for x in w.registry) else "unregistered"} - nobody reads it, its close is never noticed')
+        elif oc == 'initialized':
             ctx.prove('C10.accept.connected', 'CONNECTED' in seq and conn.attrs['state'].name == 'CONNECTED')
         else:
             ctx.prove('C10.accept.closed-stays-closed', conn.attrs['state'].name == 'CLOSED' and not any(x is conn for x in w.registry),
@@ -497,6 +524,16 @@ def prove_connect_sites(src_root, ex: Explorer):
     ex.obligations[:] = [ob for ob in ex.obligations if ob.name.startswith('C10.')]
 
 
+def prove_pierce_relies(src_root, ex: Explorer):
+    """An accepted connection whose PeerPierceFirewall names a ticket nobody waits for is closed by the handler (otherwise it stays open and
+    registered with no reader): the hand-over contract of C11 (C11.pierce.*), discharged here as well."""
+    from contracts import C11
+    C11.prove_pierce(src_root, ex)
+    for ob in ex.obligations:
+        if ob.name.startswith('C11.pierce.'):
+            ob.name = 'C10.accepted.pierce.' + ob.name[len('C11.pierce.'):]
+
+
 def prove_reader_relies(src_root, ex: Explorer):
     """A connection whose peer closes (or breaks) it ends CLOSED because its reader notices: the reader loop goes on reading after a frame
     it cannot decode and ends only when the connection is closing (C02.reader_loop.*), discharged here as well."""
@@ -508,7 +545,7 @@ def prove_reader_relies(src_root, ex: Explorer):
 
 
 def items(src_root, tier):
-    return [('reader-relies', None), ('connect-sites', None), ('set_state', None), ('connect', None), ('disconnect', None), ('after', None), ('accept', None), ('registry', None), ('accepted', None), ('accepted-failures', None), ('shutdown', None)]
+    return [('pierce-relies', None), ('reader-relies', None), ('connect-sites', None), ('set_state', None), ('connect', None), ('disconnect', None), ('after', None), ('accept', None), ('registry', None), ('accepted', None), ('accepted-failures', None), ('shutdown', None)]
 
 
 def run_item(src_root, item, tier):
@@ -518,7 +555,7 @@ def run_item(src_root, item, tier):
     try:
         {'set_state': prove_set_state, 'connect': prove_connect, 'disconnect': prove_disconnect, 'after': prove_after_closed,
          'accept': prove_accept, 'registry': prove_registry, 'accepted': prove_accepted_registered, 'accepted-failures': prove_accepted_failures, 'shutdown': prove_shutdown_order,
-         'connect-sites': prove_connect_sites, 'reader-relies': prove_reader_relies}[kind](src_root, ex)
+         'connect-sites': prove_connect_sites, 'reader-relies': prove_reader_relies, 'pierce-relies': prove_pierce_relies}[kind](src_root, ex)
     except Unsupported as e:
         res.errors.append(f'{kind}: unsupported: {e}')
     collect(res, ex)
